@@ -22,4 +22,8 @@ CHECKS = {
             "fuzz": [{"target": "FuzzC02_multi", "sub": "multi", "time": 90}]},
     "C04": {"pkg": "cli", "assumptions": CLI_ASSUME + ["a `--` standing where a mandatory value is still missing is excepted by the statement and not judged", "the reference model is used only to tell whether a require-order stop precedes the terminator"],
             "subs": [sub("TestC04_terminator", 40000, 1600000, 16)]},
+    "C05": {"pkg": "cli", "assumptions": CLI_ASSUME,
+            "subs": [sub("TestC05_abbrev", 2500, 120000, 16)]},
+    "C06": {"pkg": "cli", "assumptions": CLI_ASSUME + ["the reference model is used only to confirm that the planned occurrences are the ones the command line addresses"],
+            "subs": [sub("TestC06_alias", 30000, 1600000, 16)]},
 }
